@@ -192,14 +192,11 @@ var bndTable = map[string]map[string]string{
 func init() { bndTable["agg"] = bndTable["att"] }
 
 func bndOf(st *Step) string {
-	if st.Bnd != "" {
-		return st.Bnd
-	}
 	d := st.Desc
 	if i := strings.Index(d, "+outer-prefix"); i >= 0 {
 		d = d[:i]
 	}
-	return bndTable[st.Topic][d]
+	return joinTags(bndTable[st.Topic][d], st.Bnd)
 }
 
 func allScenarios() []scenBuilder {
@@ -353,7 +350,19 @@ func allScenarios() []scenBuilder {
 			if err != nil {
 				return nil, err
 			}
-			return []*Scen{newScen("late", b, v), newScen("latebel", b, v2)}, nil
+			// heads in the first epoch of a fork / the last epoch before it: late1 = epoch 1 (first altair epoch, last
+			// before bellatrix; the next block slots 7, 8, 9 straddle the bellatrix upgrade), latebel = epoch 2 (first
+			// bellatrix epoch, last before capella+deneb; next block slots 11, 12, 13), late3 = epoch 3 (FIRST deneb
+			// epoch), late = epoch 4
+			v1, err := b.view("late1", keepUpTo(6), "main", 0, true)
+			if err != nil {
+				return nil, err
+			}
+			v3, err := b.view("late3", keepUpTo(14), "main", 0, true)
+			if err != nil {
+				return nil, err
+			}
+			return []*Scen{newScen("late", b, v), newScen("latebel", b, v2), newScen("late1", b, v1), newScen("late3", b, v3)}, nil
 		}},
 	}
 }
@@ -367,6 +376,64 @@ func (s *Scen) preForkEpoch() (common.Epoch, bool) {
 		return 0, false
 	}
 	return f.Epoch - 1, true
+}
+
+// forkSlotTag: "<what>@first-slot-of-<fork>" / "<what>@last-slot-before-<fork>" when slot sits on a fork boundary.
+func (s *Scen) forkSlotTag(what string, slot common.Slot) string {
+	sp := s.spec()
+	for _, fk := range []chain.Fork{chain.Altair, chain.Bellatrix, chain.Capella, chain.Deneb} {
+		fe := chain.ForkEpochOf(sp, fk)
+		if fe == chain.FarFuture || fe == 0 {
+			continue
+		}
+		start := mustV(sp.EpochStartSlot(fe))
+		// with several upgrades at one epoch the latest fork names the boundary
+		if nxt := fk + 1; nxt <= chain.Deneb && chain.ForkEpochOf(sp, nxt) == fe {
+			continue
+		}
+		if slot == start {
+			return what + "@first-slot-of-" + fk.String()
+		}
+		if slot+1 == start {
+			return what + "@last-slot-before-" + fk.String()
+		}
+	}
+	return ""
+}
+
+// forkEpochTag: the same for epochs.
+func (s *Scen) forkEpochTag(what string, epoch common.Epoch) string {
+	sp := s.spec()
+	for _, fk := range []chain.Fork{chain.Altair, chain.Bellatrix, chain.Capella, chain.Deneb} {
+		fe := chain.ForkEpochOf(sp, fk)
+		if fe == chain.FarFuture || fe == 0 {
+			continue
+		}
+		if nxt := fk + 1; nxt <= chain.Deneb && chain.ForkEpochOf(sp, nxt) == fe {
+			continue
+		}
+		if epoch == fe {
+			return what + "@first-epoch-of-" + fk.String()
+		}
+		if epoch+1 == fe {
+			return what + "@last-epoch-before-" + fk.String()
+		}
+	}
+	return ""
+}
+
+func joinTags(tags ...string) string {
+	out := ""
+	for _, t := range tags {
+		if t == "" {
+			continue
+		}
+		if out != "" {
+			out += "|"
+		}
+		out += t
+	}
+	return out
 }
 
 const bndPreFork = "epoch=fork_epoch-1:head-past-fork"
